@@ -47,6 +47,7 @@ type G struct {
 	nodeGates bool // park at every chain-database query
 	// per-goroutine storage-call counter for fault addressing
 	dbCalls int
+	work    int // queries made so far (client calls, see Sched.WorkBudget)
 }
 
 // gone reports whether the goroutine belongs to a crashed incarnation.
@@ -133,6 +134,11 @@ type Sched struct {
 	dead chan struct{} // never closed: abandoned goroutines block here
 
 	CrashRequested bool
+	// WorkBudget, when > 0, bounds the number of storage and chain-node queries
+	// one client call may make; a call that exceeds it is ended (recorded in
+	// Stalls): it is doing an unbounded amount of work instead of answering.
+	WorkBudget int
+	Stalls     []string
 	FatalExits     []string // logrus.Fatal interceptions
 	Panics         []string
 
@@ -240,6 +246,31 @@ func (s *Sched) Gate(point string) {
 	<-g.ch
 	if g.gone() {
 		<-s.dead
+	}
+}
+
+// workBudgetExceeded is the panic value that ends a client call which went
+// over the work budget.
+type workBudgetExceeded struct{ n int }
+
+// Work is called by the storage and node seams once per query.
+func (s *Sched) Work() {
+	if s.WorkBudget == 0 {
+		return
+	}
+	id := goid()
+	s.mu.Lock()
+	g := s.gs[id]
+	over := false
+	n := 0
+	if g != nil && g.Role == RoleClient {
+		g.work++
+		n = g.work
+		over = g.work > s.WorkBudget
+	}
+	s.mu.Unlock()
+	if over {
+		panic(workBudgetExceeded{n})
 	}
 }
 
